@@ -21,7 +21,7 @@ import (
 	"verif/internal/model"
 )
 
-const rule = "cases: (twin pair, type argument, bytes) for 24 parser twin pairs - generic vs fixed-size keys-and-cert readers (compared only on inputs whose certificate declares the fixed reader's key sizes), value- vs pointer-returning readers, destination / router-identity wrappers vs ReadKeysAndCert (compared on key types the wrapper permits), remainder-returning vs exact-length constructors (compared on inputs consumed completely), ReadLeaseSet's destination vs ReadDestinationFromLeaseSet - inputs valid / mutated / arbitrary as in C01; plus builder twins over generated arguments: five ways to make a key certificate, two certificate constructors, NewI2PString vs ToI2PString, NewIntegerFromInt vs EncodeIntN, NewRouterIdentity vs NewRouterIdentityFromKeysAndCert vs NewDestination; and builder histories: a CertificateBuilder driven through a generated sequence of 2..8 WithType/WithKeyTypes/WithPayload/Build calls (builder reuse) compared at every Build with the direct constructor on the arguments in effect. Oracle: same acceptance, identical serialisation, identical remainder. Non-trivial: at least one twin accepted (and the input is in the pair's common domain); distinct by (pair, input)."
+const rule = "cases: (twin pair, type argument, bytes) for 28 parser twin pairs (four of them conversions chained behind a parser: KeyCertificateFromCertificate(ReadCertificate) vs NewKeyCertificate, ReadRouterIdentity.AsDestination vs ReadDestination, NewRouterIdentityFromKeysAndCert(ReadDestination) vs ReadRouterIdentity, NewDestination(ReadKeysAndCert) vs ReadDestination) - generic vs fixed-size keys-and-cert readers (compared only on inputs whose certificate declares the fixed reader's key sizes), value- vs pointer-returning readers, destination / router-identity wrappers vs ReadKeysAndCert (compared on key types the wrapper permits), remainder-returning vs exact-length constructors (compared on inputs consumed completely), ReadLeaseSet's destination vs ReadDestinationFromLeaseSet - inputs valid / mutated / arbitrary as in C01; plus builder twins over generated arguments: five ways to make a key certificate, two certificate constructors, NewI2PString vs ToI2PString, NewIntegerFromInt vs EncodeIntN, NewRouterIdentity vs NewRouterIdentityFromKeysAndCert vs NewDestination; and builder histories: a CertificateBuilder driven through a generated sequence of 2..8 WithType/WithKeyTypes/WithPayload/Build calls (builder reuse) compared at every Build with the direct constructor on the arguments in effect. Oracle: same acceptance, identical serialisation, identical remainder. Non-trivial: at least one twin accepted (and the input is in the pair's common domain); distinct by (pair, input)."
 
 func TestMain(m *testing.M) { ev.Main(m, "C19", rule) }
 
@@ -29,7 +29,7 @@ type pair struct {
 	a, b   string
 	domain func(in []byte, typ int) bool // nil: everything
 	exact  bool                          // b takes exact-length input: compare only when a leaves no remainder
-	src    string                        // entry used to draw valid inputs
+	src    []string                      // entries used to draw inputs (default: a and b)
 }
 
 func certSizes(in []byte) (cs, ss int, ok bool) {
@@ -91,6 +91,19 @@ var pairs = []pair{
 		c, _, err := model.DecodeCert(in)
 		return err == nil && c.Type == 5 && len(c.Payload) >= 4
 	}},
+	// a key certificate from bytes versus from a parsed certificate: same acceptance, serialisation, remainder
+	{a: "key_certificate.NewKeyCertificate", b: "key_certificate.KeyCertificateFromCertificate(certificate.ReadCertificate)",
+		src: []string{"key_certificate.NewKeyCertificate", "certificate.ReadCertificate"}},
+	// the destination and router-identity wrappers, converted into each other
+	{a: "destination.ReadDestination", b: "router_identity.ReadRouterIdentity.AsDestination", src: []string{"destination.ReadDestination"}, domain: func(in []byte, _ int) bool {
+		st, et, ok := identTypes(in)
+		return ok && st != 4 && st != 5 && st != 6 && st != 8 && st != 11 && et != 5 && et != 6 && et != 7
+	}},
+	{a: "router_identity.ReadRouterIdentity", b: "router_identity.NewRouterIdentityFromKeysAndCert(destination.ReadDestination)", src: []string{"destination.ReadDestination"}, domain: func(in []byte, _ int) bool {
+		st, et, ok := identTypes(in)
+		return ok && st != 4 && st != 5 && st != 6 && st != 8 && st != 11 && et != 5 && et != 6 && et != 7
+	}},
+	{a: "destination.ReadDestination", b: "destination.NewDestination(keys_and_cert.ReadKeysAndCert)", src: []string{"destination.ReadDestination"}},
 	{a: "keys_and_cert.ReadKeysAndCertElgAndEd25519", b: "keys_and_cert.ReadKeysAndCertX25519AndEd25519", domain: func(in []byte, _ int) bool { return false }},
 }
 
@@ -149,6 +162,9 @@ func genCase(t *rapid.T) Case {
 	entries := []string{p.a}
 	if rapid.Bool().Draw(t, "useB") {
 		entries = []string{p.b}
+	}
+	if p.src != nil {
+		entries = p.src
 	}
 	in := gen.InputG(t, entries)
 	if p.exact && in.Source == "valid" {
